@@ -71,3 +71,11 @@ Print Assumptions C04_regex_whole_line.
 Print Assumptions C04_regex_rule_partial.
 Print Assumptions C04_cram_glob.
 Print Assumptions C04_regex_prepare_plain.
+
+(* what the curly-bracket pass takes for a repetition quantifier -- and therefore leaves to the regex crate as written: `{n}`,
+   `{n,m}` and `{n,}` for numbers n, m of any length; a bracket not followed by a number is text *)
+Theorem C04_regex_quantifier_forms : forall d1 d2 rest, d1 <> [] -> forallb is_09 d1 = true -> forallb is_09 d2 = true ->
+  quantifier_body (d1 ++ 125 :: rest) = Some (d1, rest)
+  /\ quantifier_body (d1 ++ 44 :: d2 ++ 125 :: rest) = Some (d1 ++ [44] ++ d2, rest).
+Proof. intros d1 d2 rest Hne H1 H2. split; [exact (quantifier_exact d1 rest Hne H1)|exact (quantifier_range d1 d2 rest Hne H1 H2)]. Qed.
+Print Assumptions C04_regex_quantifier_forms.
